@@ -808,8 +808,7 @@ def oracle(case, out):
                     continue            # the sandbox could not resolve / reach / schedule: a distinct observation, no verdict
                 first, _, epart = o[2:].partition(" ")
                 what, _, rest = first.partition(":")
-                connected = what in ("opened", "established")
-                bad.extend(tp_endpoint_oracle(case, out, i))
+                connected = what in ("opened", "established")      # (the `ep=` part is C10's subject: tp_endpoint_oracle)
                 where = f"TcpTransport::{a['via']} with a /{a['host']}/ address"
                 if a["exp"] not in ("none", a["l"]):
                     if connected:
